@@ -53,6 +53,8 @@ func main() {
 		err = core.RunFamily(core.HashFamily(), w, *seed, *tier, *replay)
 	case "set":
 		err = core.RunFamily(core.SetFamily(), w, *seed, *tier, *replay)
+	case "zset":
+		err = core.RunFamily(core.ZSetFamily(), w, *seed, *tier, *replay)
 	case "aclz":
 		err = core.RunAclZ(w, *seed, *tier, *replay)
 	case "acla":
